@@ -97,6 +97,19 @@ def voronoi(rng, N, shift=None):
     return vz.generate_lattice(pts, shift_vertices=shift)
 
 
+def churn(rng, n, lo=3, hi=16):
+    """lattices built, handed out once and dropped, so that object addresses are re-used: state that survives a lattice (a cache keyed on id(lattice), a
+    module-level memo) shows up on these and nowhere else, because every other stream keeps its lattices alive.  Callers must not keep a reference."""
+    import gc
+    for t in range(n):
+        l = voronoi(rng, int(rng.integers(lo, hi)))
+        if t % 3 == 2:
+            l = cut_boundaries(l)
+        yield f"churn#{t}", l
+        del l
+        gc.collect()
+
+
 def edge_subgraph(rng, l, p=None):
     p = rng.uniform(0.4, 0.95) if p is None else p
     keep = rng.random(l.n_edges) < p
